@@ -253,3 +253,63 @@ Proof.
     rewrite IHx by auto. rewrite !andb_true_r. f_equal. rewrite collapse_nows by auto. rewrite P.
     destruct minI, maxI, minE; reflexivity.
 Qed.
+
+(* ---------- pattern classes without pre-processing, and free string classes ---------- *)
+Definition str_chain (chain:list setter) : bool := forallb (fun k => match k with SCheckType | SToken => true | _ => false end) chain.
+Definition is_pat_r (r:rcls) : option cre :=
+  match r with R [TStr] [] [] None (Some p) PreNone _ _ _ chain => if str_chain chain then Some p else None | _ => None end.
+Theorem pat_r_spec r p : is_pat_r r = Some p -> forall s, fst (run r (VStr s)) = if cmatch p s then Ok else ValueErr.
+Proof.
+  destruct r as [types forced permitted members pattern pre_ sub has_restr restr chain]. simpl.
+  destruct types as [|[| |] [|? ?]]; try discriminate. destruct forced; try discriminate. destruct permitted; try discriminate.
+  destruct members; try discriminate. destruct pattern as [q|]; try discriminate. destruct pre_; try discriminate.
+  destruct (str_chain chain) eqn:EC; try discriminate. intros E s. injection E as ->.
+  induction chain as [|k rest IH]; simpl in *.
+  - unfold r_check_type. simpl. destruct (cmatch p s); reflexivity.
+  - apply andb_true_iff in EC as [K EC]. specialize (IH EC). destruct k; try discriminate.
+    + unfold r_check_type at 1. simpl. exact IH.
+    + match goal with |- fst (match ?g with _ => _ end) = _ => destruct g as [[] v'] eqn:G end; simpl in *; auto.
+Qed.
+(* free strings: no facet that looks at the value *)
+Definition harmless (restr:list (string*string)) : bool :=
+  forallb (fun kv => negb (String.eqb (fst kv) "minLength" || String.eqb (fst kv) "minExclusive" || String.eqb (fst kv) "minInclusive" || String.eqb (fst kv) "maxInclusive")) restr.
+Lemma facets_harmless restr v : harmless restr = true -> facets restr v = Ok.
+Proof.
+  induction restr as [|[tag val] r IH]; simpl; intros H; auto. apply andb_true_iff in H as [H1 H2]. apply negb_true_iff in H1.
+  apply orb_false_iff in H1 as [H1 D]. apply orb_false_iff in H1 as [H1 C]. apply orb_false_iff in H1 as [A B]. simpl in *.
+  rewrite A, B, C, D. simpl. auto.
+Qed.
+Definition is_free_r (r:rcls) : bool :=
+  match r with R [TStr] [] [] None None _ _ has_restr restr chain => str_chain chain && (negb has_restr || harmless restr) | _ => false end.
+Theorem free_r_run r : is_free_r r = true -> forall s, fst (run r (VStr s)) = Ok /\ (cleaned_token s = s -> run r (VStr s) = (Ok, VStr s)).
+Proof.
+  destruct r as [types forced permitted members pattern pre_ sub has_restr restr chain]. simpl.
+  destruct types as [|[| |] [|? ?]]; try discriminate. destruct forced; try discriminate. destruct permitted; try discriminate.
+  destruct members; try discriminate. destruct pattern; try discriminate. intros H s. apply andb_true_iff in H as [EC HR].
+  assert (F: (if has_restr then facets restr (VStr s) else Ok) = Ok).
+  { destruct has_restr; auto. simpl in HR. apply facets_harmless; auto. }
+  induction chain as [|k rest IH]; simpl in *.
+  - unfold r_check_type. simpl. destruct has_restr; simpl; [rewrite F|]; auto.
+  - apply andb_true_iff in EC as [K EC]. specialize (IH EC). destruct IH as [IH1 IH2]. destruct k; try discriminate.
+    + unfold r_check_type at 1 3. simpl. auto.
+    + match goal with |- fst (match ?g with _ => _ end) = _ /\ _ => destruct g as [[] v'] eqn:G end; simpl in *; try discriminate.
+      split; auto. intros C. rewrite C. reflexivity.
+Qed.
+Theorem free_r_spec r : is_free_r r = true -> forall s, fst (run r (VStr s)) = Ok.
+Proof. intros H s. apply (free_r_run r H s). Qed.
+(* pattern classes that clean the string as a token first (restriction of xs:token with a pattern) *)
+Definition is_pat_tok_r (r:rcls) : option cre :=
+  match r with R [TStr] [] [] None (Some p) PreToken (Some sub) _ _ chain => if str_chain chain && is_free_r sub then Some p else None | _ => None end.
+Theorem pat_tok_r_spec r p : is_pat_tok_r r = Some p -> forall s, cleaned_token s = s -> fst (run r (VStr s)) = if cmatch p s then Ok else ValueErr.
+Proof.
+  destruct r as [types forced permitted members pattern pre_ sub has_restr restr chain]. simpl.
+  destruct types as [|[| |] [|? ?]]; try discriminate. destruct forced; try discriminate. destruct permitted; try discriminate.
+  destruct members; try discriminate. destruct pattern as [q|]; try discriminate. destruct pre_; try discriminate. destruct sub as [sub|]; try discriminate.
+  destruct (str_chain chain && is_free_r sub) eqn:EC; try discriminate. intros E s C. injection E as ->. apply andb_true_iff in EC as [EC FS].
+  pose proof (proj2 (free_r_run sub FS s) C) as RS.
+  induction chain as [|k rest IH]; simpl in *.
+  - unfold r_check_type. simpl. rewrite RS. destruct (cmatch p s); reflexivity.
+  - apply andb_true_iff in EC as [K EC]. specialize (IH EC). destruct k; try discriminate.
+    + unfold r_check_type at 1. simpl. exact IH.
+    + match goal with |- fst (match ?g with _ => _ end) = _ => destruct g as [[] v'] eqn:G end; simpl in *; auto.
+Qed.
